@@ -16,6 +16,8 @@ EXPLANATION = (
     "the current and the previous iterate; it lies inside the loop whose bound depends on max_iter; the only other exit of the "
     "function builds ErrorKind::PowerIterationFailedConvergence and is reached through the loop's exhaustion edge; the normalisation "
     "(sqrt of a sum, division of every entry) dominates the convergence test, so the vector that is returned is the normalised one.  "
+    "R-C18-2: the function (and its closures) never reads the raw by-index adjacency lists, whose entries are per-pair cache values "
+    "(an undirected self-loop is listed twice), so the matrix it iterates is the one of the stored edges.  "
     "NOT decided: unit norm, non-negativity, fixed-point quality (numerical)."
 )
 TRUSTED = ["rustc MIR construction", "over-approximated dependence"]
@@ -55,8 +57,7 @@ def run(ctx):
         conv = None
         for (t, v, a) in atoms:
             if isinstance(t, tuple) and t[0] == "binop" and t[1] in ("Lt", "Le", "Gt", "Ge"):
-                sw = b.blocks[a].term
-                sl = fl.slice_local(fl._op_reads(sw.discr), data_only=True)
+                sl = fl.slice_local(fl.atom_reads(a), data_only=True)
                 dep_tol = L(tol) in sl
                 cal = {b.blocks[n[1]].term.callee.short.split("::")[-1] for n in sl if n[0] == "CALL" and b.blocks[n[1]].term.callee}
                 dep_diff = "sum" in cal and any(n[0] == "CLOS" for n in sl)
@@ -70,8 +71,9 @@ def run(ctx):
             continue
         op, val, a = conv
         # polarity: which operand is the difference?
-        sw = b.blocks[a].term
-        d = fl.single_def(sw.discr.place.local)
+        d = fl.atom_def(a)
+        while d is not None and getattr(d, "rv", None) is not None and d.rv.k == "use" and d.rv.ops[0].place is not None and not d.rv.ops[0].place.proj:
+            d = fl.single_def(d.rv.ops[0].place.local)
         lhs_diff = None
         if d is not None and getattr(d, "rv", None) is not None and d.rv.k == "binop":
             s0 = fl.slice_local(fl._op_reads(d.rv.ops[0]), data_only=True)
@@ -81,7 +83,7 @@ def run(ctx):
             if not lhs_diff and not rhs_diff:
                 lhs_diff = None
         if lhs_diff is None:
-            ctx.undecided("R-C18-1", key, "convergence comparison found but operand roles not recognised", loc_str(sw.span))
+            ctx.undecided("R-C18-1", key, "convergence comparison found but operand roles not recognised", loc_str(fl.atom_span(a)))
         else:
             good = (lhs_diff and ((op in ("Lt", "Le") and val is True) or (op in ("Gt", "Ge") and val is False))) or ((not lhs_diff) and ((op in ("Gt", "Ge") and val is True) or (op in ("Lt", "Le") and val is False)))
             ctx.require(good, "R-C18-1", key, "Ok(..) is returned only when difference < tolerance-derived bound", "Ok(..) is returned when the difference is NOT below the bound (comparison %s taken %s)" % (op, val), loc_str(s.span))
@@ -96,7 +98,10 @@ def run(ctx):
                         cb = prog.bodies[fl.closure_locals[a_.place.local]]
                         if any(st.k == "assign" and st.rv.k == "binop" and st.rv.j["op"] == "Div" for st in cb.stmts()):
                             dv.append(t)
-        okn = bool(sq) and bool(dv) and all(b.dominates(t.bb, a) for t in sq[:1] + dv[:1])
+        # the same division written as a plain loop in the function body
+        dvb = [st.bb for st in b.stmts() if st.bb in lblocks and st.k == "assign" and st.rv.k == "binop" and st.rv.j["op"] == "Div" and st.rv.ty == "f64"]
+        ab = fl.atom_block(a)
+        okn = bool(sq) and (bool(dv) or bool(dvb)) and all(b.dominates(t.bb, ab) for t in sq[:1] + dv[:1]) and (bool(dv) or any(b.dominates(x, ab) or x in lblocks for x in dvb))
         ctx.require(okn, "R-C18-1", "normalised", "sqrt-of-sum normalisation and the division of every entry dominate the convergence test", "the returned vector is not (always) normalised before the convergence test (sqrt calls %d, dividing passes %d)" % (len(sq), len(dv)), loc_str(s.span))
     # the other exit
     kinds = errorkind_sites(b)
@@ -113,3 +118,21 @@ def run(ctx):
     # every non-Ok, non-failure return? (none expected)
     errs = [v for (bb, s, v) in kinds if v != "PowerIterationFailedConvergence" and v != "WrongMethod"]
     ctx.require(not errs, "R-C18-1", "no-other-kinds", "no other error kind is built", "other error kinds: %s" % errs, loc_str(b.span))
+
+
+    # ------------------------------------------------------------------ R-C18-2
+    ctx.rule("R-C18-2", "the iteration multiplies by the adjacency matrix of the STORED edges: eigenvector_centrality does not read the raw by-index adjacency lists")
+    acc = {prog.one("query::Graph::get_successor_nodes_by_index").path, prog.one("query::Graph::get_predecessor_nodes_by_index").path}
+    bad = []
+    srcs = set()
+    for cb in [b] + prog.closures_of(b.path):
+        for t in cb.calls():
+            tp = t.callee.target_path(prog) if t.callee else None
+            if tp in acc:
+                bad.append(loc_str(t.span))
+            if tp:
+                srcs.add(short(tp).split("::")[-1])
+        for st in cb.stmts():
+            if st.k == "assign" and st.rv.place is not None and any(isinstance(e, dict) and e.get("f") in ("successors_vec", "predecessors_vec") for e in st.rv.place.proj):
+                bad.append(loc_str(st.span))
+    ctx.require(not bad, "R-C18-2", "matrix-source", "neighbours and weights come from the de-duplicated neighbour API and the edge store (%s)" % sorted(srcs & {"get_successors_or_neighbors", "get_edge", "get_edges", "get_all_edges", "get_neighbor_nodes", "get_successor_nodes", "get_sparse_adjacency_matrix"}), "eigenvector_centrality walks the raw adjacency list at %s: that list repeats a neighbour for an undirected self-loop and holds one policy weight per pair, so the matrix entry becomes 2w (or the minimum of parallel weights) instead of the stored edge's weight" % bad[:2], loc_str(b.span))
